@@ -11,8 +11,10 @@ from .specs import make_store, locked_lists
 IN_PROGRESS = "StoreObjectForPidAlreadyInProgress"
 
 
-def outcome_key(out):
+def outcome_key(out, op=None):
     cls, val = out
+    if op is not None and op[0] == "retrieve_meta" and cls in ("ValueError", "FileNotFoundError"):
+        return ("notfound",)  # C12: 'a reader gets one complete version or a not-found error'
     if cls != "ok":
         return (cls,)
     return ("ok", engine_t._valkey(val))
@@ -60,7 +62,8 @@ class LinScenario(engine_t.Scenario):
     def terminal(self, ex, root):
         if ex.deadlock is not None:
             return ("DEADLOCK", tuple((n, op[:2] if op else None) for n, op in ex.deadlock))
-        outs = tuple((n, tuple(outcome_key(o) for o in ex.results[n])) for n in sorted(ex.results))
+        outs = tuple((n, tuple(outcome_key(o, self.threads[n][i]) for i, o in enumerate(ex.results[n])))
+                     for n in sorted(ex.results))
         obs = self.observe_store(ex.store, root)
         return ("END", outs, obs["api"], obs["state"], obs["residue"], obs["locked"], obs["followups"])
 
@@ -91,7 +94,8 @@ class LinScenario(engine_t.Scenario):
             results = {n: [None] * len(self.threads[n]) for n in self.threads}
             for n, i, op in perm:
                 results[n][i] = O.run(store, op, self.ctx)
-            outs = tuple((n, tuple(outcome_key(o) if o is not None else ("ABSENT",) for o in results[n]))
+            outs = tuple((n, tuple(outcome_key(o, self.threads[n][i]) if o is not None else ("ABSENT",)
+                                   for i, o in enumerate(results[n])))
                          for n in sorted(results))
             obs = self.observe_store(store, root)
             term = ("END", outs, obs["api"], obs["state"], obs["residue"], obs["locked"], obs["followups"])
